@@ -343,6 +343,11 @@ def evaluate(ctx, b, schemas, labels, norders, tag):
                     ctx.hist("eval-vs-legal", "differ" + ("-several-supertypes" if ms & set(X) else "-single-part"))
             else:
                 ctx.hist("eval-vs-legal", "agree")
+        # C08_sound_complete_partial on the real code: an emitted collect without OrList, request without multiply-inheriting
+        # member -> the real verdict is the plain meaning of the tree
+        orfree_tree = ("(O" not in tree_line) and not ms
+        if orfree_tree:
+            ctx.hist("schemas", "OR-free collect (C08_sound_complete_partial applies)")
         # (2)+(3) every request
         seen_x = {}
         enc = G.enc_schema(schema)
@@ -362,6 +367,8 @@ def evaluate(ctx, b, schemas, labels, norders, tag):
             seen_x.setdefault(xi, verdict)
             ctx.hist("verdicts", ("crash" if verdict is None else ("accepted" if verdict else "refused")) +
                      ("/legal" if legal[xi] else "/illegal"))
+            if orfree_tree and verdict is not None and verdict != evalv[xi]:
+                problems.append(("correspondence", k, {"X": list(X), "what": f"OR-free collect {tree_line}: real matcher answers {r!r} on {order} but the plain meaning of the tree is {evalv[xi]} (contradicts C08_sound_complete_partial)"}))
             rm = "CRASH" if r.startswith("CRASH") else r
             mm = "CRASH" if m.startswith("R crash") else m
             base = {"X": list(X), "order": order, "reply": r[:1500], "model": m, "legal": legal[xi], "tree": tree_line}
@@ -642,7 +649,7 @@ def run(ctx):
     if F.lookup("C08", "abstract-without-subtypes:accepts-illegal"):
         schemas.append([E("a", expr=("oneof", [ent("b"), ent("c")])), E("b", ["a"]), E("c", ["a"], abstract=True)])
         labels.append("fixed:abstract-leaf")
-    nrand, ndirected, nmulti, norders = (290, 96, 56, 2) if quick else (1600, 720, 400, 3)
+    nrand, ndirected, nmulti, norders = (270, 96, 56, 2) if quick else (1600, 720, 400, 3)
     # directed stream: shapes on which single statements of the matcher decide the verdict (two roots with asymmetric
     # sides; sub-supertypes with their own ONEOF/AND/ANDOR next to later siblings), names permuted so that every
     # alphabetical sibling order occurs
@@ -654,6 +661,9 @@ def run(ctx):
     # ComplexCollect::supports is joined per such member, in name order)
     for i in range(nmulti):
         schemas.append(G.multi_schema(ctx.rng)); labels.append("directed:multi-supertype-members")
+    # the OR-free fragment (C08_sound_complete_partial): no ONEOF, every sub-supertype ABSTRACT
+    for i in range(24 if quick else 240):
+        schemas.append(G.orfree_schema(ctx.rng)); labels.append("directed:or-free")
     shapes = ["tree", "diamond", "tworoots", "free"]
     sizes = [5, 6, 7, 7, 8, 8] if quick else [4, 5, 6, 7, 7, 8, 8, 8]
     for i in range(nrand):
